@@ -686,6 +686,24 @@ def check_vps(ctx, run):
                                   % (j, fld, "0x%X" % hi if hi is not None else "the full type range"),
                                   "%s:%d" % (enc.file, enc.line),
                                   witness={"field": fld, "bit": j, "guard_upper_bound": hi})
+        # ---- the range guard refuses nothing the stored bits can represent ----
+        for fld in fields:
+            width, hi = fst.get(fld, (32, None))
+            stored = sorted(j for (f2, j) in placed if f2 == fld)
+            if hi is None or not stored or stored != list(range(len(stored))):
+                continue
+            cap = (1 << len(stored)) - 1
+            ikey = "RF-BITS:%s:%s:guard-admits-all-storable" % (enc_name, fld)
+            n_bits += 1
+            if hi >= cap:
+                run.holds("RF-BITS", ikey, "%d bits of %s are stored and the range guard admits every value up to 0x%X"
+                          % (len(stored), fld, cap), "%s:%d" % (enc.file, enc.line))
+            else:
+                ok_enc = False
+                run.violation("RF-BITS", ikey, "%s stores %d bits of %s (values up to 0x%X) but its range guard admits only values up to "
+                              "0x%X: an in-range value is refused, the codec is not an inverse over the whole field"
+                              % (enc_name, len(stored), fld, cap, hi), "%s:%d" % (enc.file, enc.line),
+                              witness={"field": fld, "stored_bits": len(stored), "guard_upper_bound": hi})
         # ---- decoder reads each bit back from where the encoder put it ----
         for (fld, j), places in sorted(placed.items()):
             if fld not in fields:
